@@ -312,6 +312,18 @@ func (r *DRunner) RunCase(c *Case) error {
 		if !p.WaitLinks(want, 5*time.Second) {
 			return fmt.Errorf("pool of %d links not complete", want)
 		}
+	} else {
+		// the first link must have finished its handshake on BOTH ends before it may be delayed
+		ok := false
+		for i := 0; i < 1000 && !ok; i++ {
+			if _, e := p.B.Network().Node(p.A.Name()); e == nil && len(p.Relay.Live()) >= 1 {
+				ok = true
+			}
+			time.Sleep(time.Millisecond)
+		}
+		if !ok {
+			return fmt.Errorf("first link not established at the acceptor")
+		}
 	}
 	p.Relay.SetChunk(c.Chunk)
 	rw := &recvWorld{seqs: map[string][]int{}}
@@ -607,7 +619,7 @@ func (r *DRunner) RunCase(c *Case) error {
 				return e
 			}
 		}
-		// quiescence: nothing inside the relay and nothing new at the receivers for a while
+		// quiescence: nothing inside the relay and nothing new at the receivers for a while (gives up only after 8 s without any progress)
 		deadline := time.Now().Add(8 * time.Second)
 		last, stable := -1, 0
 		for time.Now().Before(deadline) {
@@ -624,6 +636,9 @@ func (r *DRunner) RunCase(c *Case) error {
 				}
 			} else {
 				stable = 0
+			}
+			if n != last {
+				deadline = time.Now().Add(8 * time.Second)
 			}
 			last = n
 			time.Sleep(20 * time.Millisecond)
